@@ -1,4 +1,5 @@
 """Registry: property -> Lean modules, theorems, stages."""
+import stage_disc
 import stage_names
 import stage_types
 
@@ -10,6 +11,13 @@ PROPS = {
                      "StubGen.C09.recover_eq", "StubGen.C09.recover_flag_independent", "StubGen.C09.no_annotation_off",
                      "StubGen.Tables.name_annotation_form"],
         "stages": [stage_names.run],
+    },
+    "C15": {
+        "modules": ["StubGen.Theorems.C15", "StubGen.Theorems.Tables"],
+        "theorems": ["StubGen.C15.filter_spec", "StubGen.C15.flag_on_keeps_all", "StubGen.C15.flag_off_excludes",
+                     "StubGen.C15.flag_irrelevant_outside", "StubGen.C15.flag_only_removes", "StubGen.C15.no_files_error",
+                     "StubGen.C15.analysed_subset", "StubGen.C15.packages_first", "StubGen.Tables.excluded_dirs"],
+        "stages": [stage_disc.run],
     },
     "C19": {
         "modules": ["StubGen.Theorems.C19", "StubGen.Theorems.Tables"],
